@@ -6,7 +6,7 @@ from typing import Any, Dict, List, Optional
 
 import z3
 
-from .loadscale import scaled
+from .loadscale import guarded, scaled
 
 _CUR: List[Any] = [None]
 
@@ -149,7 +149,8 @@ class Ctx:
 
     def _check(self, *assumptions):
         t0 = time.time()
-        r = self.solver.check(*assumptions)
+        with guarded(scaled(self.opts.get('decide_timeout_ms', 3000))):
+            r = self.solver.check(*assumptions)
         self.stats.solver_s += time.time() - t0
         self.stats.queries += 1
         if r == z3.unknown:
